@@ -282,7 +282,69 @@ theorem C01_stack_preserves {σ : Type} (app : Reader σ) (happ : app.Lawful) (s
       rw [hre, e1]; exact h2)
   rw [e2]; show (List.flatten _) = _; rw [hre, e1]
 
+/-! ### the two wrappers added around logical streams -/
+
+theorem peek1_conserve (size : Nat) (b : Buf) : (peek1 size b).2.content = b.content := by
+  unfold peek1 Buf.content
+  split
+  · rfl
+  · rename_i h
+    have hb : b.buf = [] := by simpa using h
+    simp [hb, srcRead_conserve]
+
+/-- **client_first_gate**: the server's first `Write` on a new logical stream is handed on only when bytes from the
+    client are buffered (so the client has registered the stream), it consumes none of them, and reads through the
+    wrapper conserve the stream before and after — for all arrival chunkings and read sizes. -/
+theorem C01_client_first_gate (c : CF) (hfresh : c.peeked = false) :
+    ((cfWrite Gen.bufferSize c).1 = true → (cfWrite Gen.bufferSize c).2.rd.buf ≠ []) ∧
+    (cfWrite Gen.bufferSize c).2.rd.content = c.rd.content ∧
+    (∀ n, (cfRead Gen.bufferSize c n).1 ++ (cfRead Gen.bufferSize c n).2.rd.content = c.rd.content) := by
+  refine ⟨?_, ?_, ?_⟩
+  · simp only [cfWrite, hfresh]
+    simp only [Bool.false_eq_true, ↓reduceIte]
+    unfold peek1
+    split
+    · intro _; assumption
+    · intro h; simpa using h
+  · simp only [cfWrite, hfresh]
+    simp only [Bool.false_eq_true, ↓reduceIte]
+    exact peek1_conserve _ _
+  · intro n; exact bufRead_conserve _ _ _
+
+/-- **mux_retry**: reading through `MuxStreamConnection` until it reports end-of-stream hands over all data up to
+    the genuine end, whatever spurious single end-of-stream answers the multiplexer interleaves. -/
+theorem C01_mux_retry_delivers (s : List RawRead) (fuel : Nat) (hf : s.length < fuel) :
+    muxDrain fuel s = scriptData s := by
+  induction fuel generalizing s with
+  | zero => omega
+  | succ k ih =>
+    match s with
+    | [] => simp [muxDrain, muxRead, scriptData]
+    | .data bs :: rest =>
+      simp only [muxDrain, muxRead, scriptData]
+      rw [ih rest (by simp at hf; omega)]
+    | .err :: rest => simp [muxDrain, muxRead, scriptData]
+    | [.eof] => simp [muxDrain, muxRead, scriptData]
+    | .eof :: .data bs :: rest =>
+      simp only [muxDrain, muxRead, scriptData]
+      rw [ih rest (by simp at hf; omega)]
+    | .eof :: .eof :: rest => simp [muxDrain, muxRead, scriptData]
+    | .eof :: .err :: rest => simp [muxDrain, muxRead, scriptData]
+
+/-- reading the underlying stream directly (the behaviour before the repair): stop at the first end-of-stream -/
+def noRetryDrain : List RawRead → List Nat
+  | .data bs :: rest => bs ++ noRetryDrain rest
+  | _ => []
+
+/-- without the retry a spurious end-of-stream loses the data behind it -/
+theorem C01_witness_mux_no_retry :
+    noRetryDrain [.data [9], .eof, .data [1, 2, 3]] = [9] ∧
+    scriptData [.data [9], .eof, .data [1, 2, 3]] = [9, 1, 2, 3] := by decide
+
 /-! non-vacuity -/
+example : muxDrain 5 [.data [9], .eof, .data [1, 2], .eof, .eof] = [9, 1, 2] := by decide
+example : (cfWrite 4 { rd := { buf := [], src := [[7, 8]] }, peeked := false, peekOk := false }).1 = true := by decide
+example : (cfWrite 4 { rd := { buf := [], src := [] }, peeked := false, peekOk := false }).1 = false := by decide
 example : srcReader.Lawful := srcReader_lawful
 example : (srcReader.buffered 4096).Lawful := C01_buffered_lawful _ srcReader_lawful 4096 (by decide)
 example : (readsBuf 16 { buf := [], src := [stream 10, stream 50 10] } [8, 16, 5]).1.map List.length
@@ -301,3 +363,6 @@ end SA.Framing
 #print axioms SA.Framing.C01_witness_ws_reject
 #print axioms SA.Framing.C01_frame_fits
 #print axioms SA.Framing.C01_stack_preserves
+#print axioms SA.Framing.C01_client_first_gate
+#print axioms SA.Framing.C01_mux_retry_delivers
+#print axioms SA.Framing.C01_witness_mux_no_retry
